@@ -200,7 +200,10 @@ B64WellFormed(chars) ==
   /\ \A i \in 1..Len(chars) :
         \/ B64Val(chars[i]) >= 0
         \/ chars[i] = 61 /\ i >= Len(chars) - 1 /\ (i = Len(chars) - 1 => chars[Len(chars)] = 61)
-  /\ Len(chars) > 0 =>
+        
+\* RFC 4648 lets a decoder reject or ignore non-zero padding bits in the last character: open.
+B64Canonical(chars) ==
+  Len(chars) > 0 =>
         LET a == chars[Len(chars) - 1]  b == chars[Len(chars)]
         IN /\ (a = 61 => B64Val(chars[Len(chars) - 2]) % 16 = 0)
            /\ (a # 61 /\ b = 61 => B64Val(a) % 4 = 0)
@@ -222,6 +225,7 @@ ParseLob(bs, p) ==
            ELSE IF At(bs, e + 1) # 125 THEN Rej("blob not closed by }}", e)
            ELSE LET chars == SelectSeq(SubSeq(bs, s, e - 1), LAMBDA x : ~IsWs(x))
                 IN IF ~B64WellFormed(chars) THEN Rej("malformed base64 in blob", s)
+                   ELSE IF ~B64Canonical(chars) THEN Rej("open: non-zero padding bits in base64", s)
                    ELSE [ok |-> TRUE, v |-> Val("blob", <<>>, B64Decode(chars)), next |-> e + 2]
 
 (***************************************************************************)
@@ -484,6 +488,7 @@ IsVersionMarkerShape(id) ==
 IdentToken(id, ctx, at) ==
   LET sid == SidOfIdent(id)
   IN IF sid = -1 THEN [ok |-> TRUE, tok |-> TextTok(id)]
+     ELSE IF sid >= Huge THEN Rej("limit: symbol id of 2^30 or more", at)
      ELSE IF ~ValidSid(ctx, sid) THEN Rej("symbol id beyond max_id", at)
      ELSE [ok |-> TRUE, tok |-> Resolve(ctx, sid)]
 
